@@ -99,6 +99,8 @@ def run(tier, seed, t0):
     shards += [("LONG", N) for N in LN]
     shards += [("PAD",)]
     shards = [("XL", N, k) for N in ((1100, 1501) if tier == "quick" else (1100, 1501, 2051, 2600)) for k in range(4)] + shards
+    # lengths around powers of two beyond 1000 (transform / padding sizes), termini charged
+    shards = [("XL", N, k) for N in ((1023, 1024, 1025) if tier == "quick" else (1023, 1024, 1025, 2047, 2048, 2049, 4097)) for k in (0, 1)] + shards
     shards += [("DB", (L_,)) for L_ in ((23, 47, 97) if tier == "quick" else (17, 23, 31, 47, 61, 97, 150, 301))]
     SC = 200 if tier == "quick" else 520
     shards = [("SCAN", SC, "up"), ("SCAN", SC, "down")] + shards
@@ -107,7 +109,7 @@ def run(tier, seed, t0):
         PROP, tier, seed, acc, t0,
         rule="every charge pattern of length 1..%d (K/E/G), every pattern of length 1..%d in 17 spellings covering all 20 "
              "residues, every <=3-run pattern of length 2..%d, a structured family of long patterns (homopolymers, 2/3-block, periodic) "
-             "at lengths %s, four patterns with more than 1024 charged residues at 1100 and 1501 residues (thorough: to 2600), and EVERY length 2..%d in strictly ascending and strictly descending order in a freshly imported package (4 "
+             "at lengths %s, four patterns with more than 1024 charged residues at 1100 and 1501 residues (thorough: to 2600), two patterns with charged termini at 1023/1024/1025 residues (thorough: also 2047-2049, 4097), and EVERY length 2..%d in strictly ascending and strictly descending order in a freshly imported package (4 "
              "patterns with charged termini per length), and shared-core families (6 irregular cores of 24-40 residues with charged ends, each "
              "between every combination of 0/1/3/8 neutral residues on either side, core-major then padding-major, in a fresh package); one real get_SCD() call each, compared with "
              "(1/N) sum_{m>n} q_m q_n sqrt(m-n) evaluated with integer pair counts per distance and math.fsum; "
